@@ -995,6 +995,20 @@ class Region(object):
             return
         if self.s6(name, writes, reads):
             return
+        # an index recovered from a walking pointer (q = (int)(p - base)) carries the pointer's guards (while (*p)), which this
+        # analysis does not translate into conditions on base[q]: it cannot tell a predicate partition from a race then
+        for a in foreign:
+            m_ = re.match(r"^%s\[(\w+)\]$" % re.escape(name), a.text)
+            if m_:
+                for st_, x_ in cfront.all_exprs(self.omp.body):
+                    if x_.k == "asg" and x_.op == "=" and x_.a[0].k == "var" and x_.a[0].name == m_.group(1):
+                        rhs = x_.a[1]
+                        while rhs.k == "cast":
+                            rhs = rhs.a[0]
+                        if rhs.k == "bin" and rhs.op == "-" and all("*" in (y.ty or "") for y in rhs.a):
+                            raise AnalysisError("%s:%s the index %s of the read %s is recovered from a walking pointer (%s): the guards of the walk are "
+                                                "not translated into conditions on the array, the partition of '%s' cannot be decided"
+                                                % (self.func.file, a.line, m_.group(1), a.text, estr(x_), name))
         for a in foreign:
             self.problems.append(("S5", "read %s in '%s'" % (a.text, a.stmt), "thread reads '%s' outside its own partition [%s,%s) "
                                   "while the owning thread may be writing that cell in this region (result depends on "
